@@ -666,6 +666,46 @@ fn c11_pair(pl: &mut Placed, a: &[u8], b: &[u8], at_end: bool, r: &mut Report) {
     }
 }
 
+/// Second operands that are raw `&[u8]` / `&str` may legally contain NUL bytes (a `UnixStr` cannot).
+/// `find_buf` searches the receiver's buffer as it is, terminator included (that is what lets
+/// `find_buf(b".rs\0")` anchor a match at the end); `match_up_to_str` compares the receiver's content
+/// with the bytes of `other`, so the receiver's terminator ends the common prefix whatever `other` holds there.
+fn c11_raw_second(pl: &mut Placed, a: &[u8], b: &[u8], at_end: bool, r: &mut Report) {
+    let an = with_nul(a);
+    for op in ["find_buf", "match_up_to_str"] {
+        r.eval();
+        r.nontrivial_unique();
+        let sa: &[u8] = if at_end { pl.a.place_end(&an) } else { pl.a.place_start(&an) };
+        let sa = unsafe { std::slice::from_raw_parts(sa.as_ptr(), sa.len()) };
+        let sb: &[u8] = if at_end { pl.b.place_end(b) } else { pl.b.place_start(b) };
+        let sb = unsafe { std::slice::from_raw_parts(sb.as_ptr(), sb.len()) };
+        let ua = unsafe { UnixStr::from_bytes_unchecked(sa) };
+        let case = json!({"op": op, "a": show_bytes(a), "b": show_bytes(b), "placement": if at_end {"end"} else {"start"}, "raw_second": true});
+        set_case(&case.to_string());
+        let (got, want) = match op {
+            "find_buf" => (catch(|| format!("{:?}", ua.find_buf(sb))), format!("{:?}", ref_find(&an, b))),
+            _ => {
+                let bs = unsafe { std::str::from_utf8_unchecked(sb) };
+                (catch(|| format!("{}", ua.match_up_to_str(bs))), format!("{}", ref_prefix(a, b)))
+            }
+        };
+        clear_case();
+        match got {
+            Err(p) => r.violation(&format!("C11:{op}:panic"), format!("{op}({:?}, raw {:?}) panicked: {p}", show_bytes(a), show_bytes(b)), case),
+            Ok(g) => {
+                r.outcome(&format!("{op}-raw-operand-with-nul:{}", if g == "None" { "none" } else if op == "find_buf" { "some" } else { "len" }));
+                if g != want {
+                    r.violation(
+                        &format!("C11:{op}:wrong-answer"),
+                        format!("{op}({:?}, raw {:?}) = {g}, definition gives {want}", show_bytes(a), show_bytes(b)),
+                        case,
+                    );
+                }
+            }
+        }
+    }
+}
+
 fn c11_single(pl: &mut Placed, a: &[u8], at_end: bool, r: &mut Report) {
     let an = with_nul(a);
     for op in ["parent_path", "path_file_name"] {
@@ -768,6 +808,29 @@ fn c11(args: &Args) -> Report {
             r.sample(json!({"op":"path_join_fmt-literal","a":"a/","b":"/there"}));
             r
         }));
+        let (la, lb) = if args.thorough { (5, 5) } else { (4, 4) };
+        items.push(isolated("raw-second-operand-with-nul", move || {
+            let mut r = Report::new();
+            let mut pl = Placed { a: GuardArena::new(2), b: GuardArena::new(2) };
+            let lefts = all_strings(&[b'a', b'.'], la);
+            // every raw operand over {a, '.', NUL} that holds at least one NUL (the NUL-free ones are the pairs above)
+            let rights: Vec<Vec<u8>> = all_strings(&[b'a', b'.', 0], lb).into_iter().filter(|b| b.contains(&0)).collect();
+            for a in &lefts {
+                for b in &rights {
+                    c11_raw_second(&mut pl, a, b, true, &mut r);
+                    c11_raw_second(&mut pl, a, b, false, &mut r);
+                }
+                // the receiver's own buffer (content + terminator) and its tails as the raw operand
+                let an = with_nul(a);
+                for k in 0..an.len() {
+                    if !rights.contains(&an[k..].to_vec()) {
+                        c11_raw_second(&mut pl, a, &an[k..], true, &mut r);
+                    }
+                }
+            }
+            r.sample(json!({"op":"find_buf","a":"a.a","b":".a\\0","raw_second":true}));
+            r
+        }));
         let lmax = if args.thorough { 1100 } else { 200 };
         items.push(isolated("length-ladder", move || {
             let mut r = Report::new();
@@ -780,6 +843,7 @@ fn c11(args: &Args) -> Report {
         "every ordered pair of strings of length <= {lp} over {{a,b,'/','.'}} (empty included) into find/find_buf/match_up_to/match_up_to_str/ends_with/path_join/path_join_fmt, \
          every string of length <= {ls} into parent_path/path_file_name, each under two guard-page placements (operand ends at / starts after an inaccessible page); \
          plus a fixed ladder of long operands (labelled, not exhaustive); a family of compile-time literal templates for path_join_fmt x every left operand; \
+         raw second operands holding NUL bytes for find_buf / match_up_to_str: every receiver <= 4 (5) over {{a,'.'}} x every raw operand <= 4 (5) over {{a,'.',NUL}} with at least one NUL; \
          a length ladder: for EVERY length up to 200 (thorough 1100) equal / one-byte-changed / shorter / longer operands in both orders and placements, and every \
          position of one separator. Each (op, operands, placement) generated once."
     );
@@ -798,7 +862,9 @@ fn replay(v: &serde_json::Value, r: &mut Report) {
     println!("replaying op={op} a={} b={}", show_bytes(&a), show_bytes(&b));
     if v.get("placement").is_some() {
         let mut pl = Placed { a: GuardArena::new(2), b: GuardArena::new(2) };
-        if v.get("b").is_some() {
+        if v.get("raw_second").is_some() {
+            c11_raw_second(&mut pl, &a, &b, at_end, r);
+        } else if v.get("b").is_some() {
             c11_pair(&mut pl, &a, &b, at_end, r);
         } else {
             c11_single(&mut pl, &a, at_end, r);
